@@ -117,6 +117,14 @@ func keyMutations(r *fw.Rand) []mut {
 		mut{"key-purposes-duplicate-within-five", true, func(m map[string]interface{}) {
 			m["purposes"] = []interface{}{"authentication", "assertionMethod", "authentication"}
 		}},
+		mut{"key-purposes-five-known-plus-a-repeat", false, func(m map[string]interface{}) {
+			m["type"] = gen.TJwk2020
+			m["purposes"] = []interface{}{"authentication", "assertionMethod", "keyAgreement", "capabilityInvocation", "capabilityDelegation", "authentication"}
+		}},
+		mut{"key-purposes-seven-with-repeats", false, func(m map[string]interface{}) {
+			m["type"] = gen.TJwk2020
+			m["purposes"] = []interface{}{"authentication", "authentication", "authentication", "assertionMethod", "assertionMethod", "keyAgreement", "keyAgreement"}
+		}},
 		mut{"key-type-unknown-no-purposes", false, func(m map[string]interface{}) { m["type"] = "FooVerificationKey2099"; delete(m, "purposes") }},
 		mut{"key-both-jwk-and-base58", false, func(m map[string]interface{}) { m["publicKeyBase58"] = gen.B58(r.Bytes(32)) }},
 		mut{"key-neither-jwk-nor-base58", false, func(m map[string]interface{}) { delete(m, "publicKeyJwk") }},
@@ -418,6 +426,14 @@ func runC13(r *fw.Runner) {
 				labelled{act + "/duplicate-non-ascii-path", mk("https://example.com/jürgen", "did:example:x", "https://example.com/jürgen"), false},
 				labelled{act + "/duplicate-space-in-path", mk("https://example.com/a b", "https://example.com/a b"), false},
 				labelled{act + "/duplicate-upper-case-scheme", mk("HTTPS://example.com/x", "HTTPS://example.com/x"), false},
+				// every component a URI can have: user information, port, query, fragment, an IPv6 host, an opaque part
+				labelled{act + "/duplicate-with-userinfo", mk("https://alice@social.example/profile", "https://alice@social.example/profile"), false},
+				labelled{act + "/duplicate-with-user-and-password", mk("ftp://u:p@host.example/x", "did:example:z", "ftp://u:p@host.example/x"), false},
+				labelled{act + "/duplicate-with-port-query-fragment", mk("https://h.example:8443/p?q=1&r=2#frag", "https://h.example:8443/p?q=1&r=2#frag"), false},
+				labelled{act + "/duplicate-ipv6-host", mk("http://[2001:db8::1]:80/x", "http://[2001:db8::1]:80/x"), false},
+				labelled{act + "/duplicate-opaque", mk("mailto:alice@example.com", "mailto:alice@example.com"), false},
+				labelled{act + "/duplicate-empty-query", mk("https://a.example/x?", "https://a.example/x?"), false},
+				labelled{act + "/same-but-userinfo", mk("https://alice@social.example/profile", "https://bob@social.example/profile", "https://social.example/profile"), true},
 				labelled{act + "/non-ascii-path-once", mk("https://example.com/jürgen", "https://example.com/juergen"), true},
 				labelled{act + "/bad-escape-1st", mk("https://a.example/%zz", "did:example:b"), false},
 				labelled{act + "/bad-escape-2nd", mk("did:example:b", "https://a.example/%zz"), false},
